@@ -280,14 +280,15 @@ fn file_level(rep: &Report, fmt: &'static str, asts: &[Expr], thorough: bool) {
 fn text_formats(rep: &Report) {
     // stored text (xlsx <f>, ods table:formula): XML-special characters, every position, non-formula cells ""
     let texts = ["A1+1", "IF(A1<B1,\"a&b\",1)", "SUM($A$1:B$2)&\"<x>\"", "'My Sheet'!A1*2", "\"caf\u{e9} \u{20ac} \u{1F600}\"&A1", "A1>=B1", "1<>2"];
-    let rel: [(u32, u32); 4] = [(0, 0), (1, 2), (5, 0), (7, 4)];
+    // (1,3) and (7,5) directly follow another position: with implicit references the second cell of such a pair has no r attribute
+    let rel: [(u32, u32); 6] = [(0, 0), (1, 2), (1, 3), (5, 0), (7, 4), (7, 5)];
     for fmt in ["xlsx", "ods"] {
         for (ti, t) in texts.iter().enumerate() {
-            for mask in 1..32u32 {
-                // bit 4 selects the far window (xlsx only: an ods row materialises every column before it)
-                let anchor = if mask & 16 != 0 { if fmt == "ods" { (40u32, 30u32) } else { (1_048_568, 16_379) } } else { (0, 0) };
+            for mask in 1..128u32 {
+                // bit 6 selects the far window (xlsx only: an ods row materialises every column before it)
+                let anchor = if mask & 64 != 0 { if fmt == "ods" { (40u32, 30u32) } else { (1_048_568, 16_379) } } else { (0, 0) };
                 let positions: Vec<(u32, u32)> = rel.iter().map(|p| (anchor.0 + p.0, anchor.1 + p.1)).collect();
-                if mask & 15 == 0 { continue; }
+                if mask & 63 == 0 { continue; }
                 let cells: Vec<((u32, u32), String)> = positions.iter().enumerate().filter(|(i, _)| mask & (1 << i) != 0).map(|(i, p)| (*p, if fmt == "ods" { format!("of:={}", texts[(ti + i) % texts.len()]) } else { texts[(ti + i) % texts.len()].to_string() })).collect();
                 let _ = t;
                 let plain = (anchor.0 + 3, anchor.1 + 3);
@@ -345,7 +346,7 @@ fn text_formats(rep: &Report) {
 
 pub fn check(rep: &Report) {
     let t = crate::thorough(&rep.tier);
-    rep.rule("(a) every AST of depth <= 2 (thorough: + a depth-3 layer) over operands {cell refs: 4 absolute/relative combinations x columns A, Z, AA, AZ, ZZ, AAA, IV|XFD x first/last row; areas; 3-D refs/areas through a non-identity XTI table; 2 defined names; int, float, 8/16-bit strings, bool, 7 error literals} and operators {unary + - %, 15 binary, parentheses, fixed-arity PI/ABS/ROUND/MID, variable-arity SUM/IF/COUNT, PtgAttrSum}, serialised to BIFF8 and BIFF12 token streams in both operand classes and rendered by the real parsers (hook); (b) every 41st (thorough 7th) of them in FORMULA / BrtFmlaNum/String/Bool/Error records at three cells of a window anchored at A1 or at the last cell of the sheet, cycling over the files a formula-less name record before the used names and (xls) sheet substreams in reverse of BoundSheet8 order, plus stored-text formulas with XML-special characters in xlsx and ods at every subset of 4 positions; non-formula cells must be \"\"; non-trivial = depth >= 1");
+    rep.rule("(a) every AST of depth <= 2 (thorough: + a depth-3 layer) over operands {cell refs: 4 absolute/relative combinations x columns A, Z, AA, AZ, ZZ, AAA, IV|XFD x first/last row; areas; 3-D refs/areas through a non-identity XTI table; 2 defined names; int, float, 8/16-bit strings, bool, 7 error literals} and operators {unary + - %, 15 binary, parentheses, fixed-arity PI/ABS/ROUND/MID, variable-arity SUM/IF/COUNT, PtgAttrSum}, serialised to BIFF8 and BIFF12 token streams in both operand classes and rendered by the real parsers (hook); (b) every 41st (thorough 7th) of them in FORMULA / BrtFmlaNum/String/Bool/Error records at three cells of a window anchored at A1 or at the last cell of the sheet, cycling over the files a formula-less name record before the used names and (xls) sheet substreams in reverse of BoundSheet8 order, plus stored-text formulas with XML-special characters in xlsx and ods at every subset of 6 positions (two of them directly after another, so that implicit and explicit references mix within a row); non-formula cells must be \"\"; non-trivial = depth >= 1");
     rep.assume("strings contain no double quote; sheet names need no quoting; numbers are exactly printable (1.5, 0.25)");
     let xls = sweep(rep, false, t);
     let xlsb_asts = sweep(rep, true, t);
